@@ -505,9 +505,11 @@ func (svg *SVGImage) applyClipPath(dst backend.Canvas, clipPath *clipPath, node 
 	// totally clipped when the clipping path is empty.
 	dst.Rectangle(0, 0, 0, 0)
 	dst.State().Clip(false)
+	// put the matrix back: Transform multiplies on the right of the current matrix,
+	// so that new * (new^-1 * old) = old
 	newCtm := dst.State().GetTransform()
 	if err := newCtm.Invert(); err == nil {
-		dst.State().Transform(matrix.Mul(oldCtm, newCtm))
+		dst.State().Transform(matrix.Mul(newCtm, oldCtm))
 	}
 }
 
